@@ -1,6 +1,6 @@
 #!/bin/bash
 # runs every claimed check (quick tier by default) and reports one line each
-cd /verif
+cd "$(dirname "$0")/.."
 TIER=${1:-quick}
 for p in $(python3 -c "import json; print(' '.join(c['property_id'] for c in json.load(open('MANIFEST.json'))['checks']))"); do
   ./check.py $p --tier $TIER 2>&1 | grep -E "VIOLATION|KNOWN|programs" | cut -c1-160
@@ -8,8 +8,8 @@ done
 python3-vt - <<'PY'
 import json,jsonschema,glob
 s=json.load(open('/root/.vp/EVIDENCE.schema.json'))
-m=json.load(open('/verif/MANIFEST.json'))
+m=json.load(open('MANIFEST.json'))
 for c in m['checks']:
-    jsonschema.validate(json.load(open(c['evidence_file'])),s)
+    jsonschema.validate(json.load(open('evidence/'+c['property_id']+'.json')),s)
 print('evidence valid for', len(m['checks']), 'checks')
 PY
